@@ -679,8 +679,28 @@ def r_add_pair(family, rng):
     return l, r
 
 
+def gen(ctx):
+    """Regenerate coq/Gen/C03_regexes.v through C03's generator.  The generated file starts with a comment naming the
+    source tree; when only that line differs (same regexes read from another checkout, e.g. WEBOB_REPO=/tmp/wt-C19) the file
+    is left alone, so that a run against a scratch worktree does not invalidate everybody's compiled closure."""
+    import os
+    path = os.path.join(fw.COQ, "Gen", "C03_regexes.v")
+    old = open(path).read() if os.path.exists(path) else None
+    orig = fw.write_if_changed
+
+    def write_if_body_changed(p, txt):
+        if p == path and old is not None and old.split("\n", 1)[1:] == txt.split("\n", 1)[1:]:
+            return False
+        return orig(p, txt)
+    fw.write_if_changed = write_if_body_changed
+    try:
+        return c03.gen(ctx)
+    finally:
+        fw.write_if_changed = orig
+
+
 def run(ctx):
-    ctx.broken += c03.gen(ctx)
+    ctx.broken += gen(ctx)
     ctx.build(["Props/C19.vo"])
     hist = {}
 
